@@ -13,6 +13,7 @@ import (
 	"os"
 	"path/filepath"
 	"strings"
+	"syscall"
 
 	mc "github.com/whawty/auth/internal/verifmc"
 	"github.com/whawty/auth/internal/verifmc/vexec"
@@ -81,6 +82,12 @@ func c12Scenarios(thorough bool) []*scenario {
 	// remote mode with an in-process master
 	out = append(out, &scenario{Name: "remote-master-default1", Upgrades: "remote-master", Default: 1, Users: c12Users,
 		Clients: [][]cop{{{Kind: "auth", User: "u2", Pw: "pw-two"}, {Kind: "auth", User: "u3", Pw: "wrong"}, {Kind: "auth", User: "u1", Pw: "pw-one"}}}})
+	// the master is unreachable for the first upgrade attempt(s) and comes back: the next login
+	// on the then idle agent must get its record upgraded on the master (the in-flight limiter
+	// of the remote path is scaled to one slot, as the queues of C10 are)
+	out = append(out, &scenario{Name: "remote-master-after-outage", Upgrades: "remote-master", Default: 1, CapLimit: 1, Users: c12Users,
+		Clients: [][]cop{{{Kind: "auth", User: "u2", Pw: "pw-two"}, {Kind: "await-idle"}, {Kind: "auth", User: "u2", Pw: "pw-two"}, {Kind: "await-idle"},
+			{Kind: "auth", User: "u3", Pw: "pw-three"}}}})
 	return out
 }
 
@@ -124,7 +131,15 @@ func c12Harness(sc *scenario) mc.Harness {
 			must(err)
 			mi := ms.GetInterface()
 			c12s = &c12state{master: mi, mdir: mdir, minit: verifx.Snap(mdir)}
+			outage := 0
+			if strings.Contains(sc.Name, "after-outage") {
+				outage = 1
+			}
 			vhttp.GetWorld().Master = func(req *vhttp.Request) (*vhttp.Response, error) {
+				if outage > 0 {
+					outage--
+					return nil, &os.PathError{Op: "dial", Path: "master.invalid", Err: syscall.ECONNREFUSED}
+				}
 				rec := httptest.NewRecorder()
 				handleWebUpdate(mi, sessions, rec, req)
 				return rec.Result(), nil
@@ -294,6 +309,25 @@ func (w *world) viaFrontend(o cop) (string, bool) {
 		rec := httptest.NewRecorder()
 		handleWebAuthenticate(st, w.sessions(), rec, httptest.NewRequest("POST", "/api/authenticate", bytes.NewReader(b)))
 		return fmt.Sprintf("%v", rec.Code == 200), true
+	case "api-login":
+		// /api/authenticate, with the identity sealed into the issued session token read back
+		b, _ := json.Marshal(map[string]string{"username": o.User, "password": o.Pw})
+		rec := httptest.NewRecorder()
+		handleWebAuthenticate(st, w.sessions(), rec, httptest.NewRequest("POST", "/api/authenticate", bytes.NewReader(b)))
+		var resp struct {
+			Session  string `json:"session"`
+			Username string `json:"username"`
+			IsAdmin  bool   `json:"admin"`
+		}
+		json.Unmarshal(rec.Body.Bytes(), &resp) //nolint:errcheck
+		if rec.Code != 200 {
+			if resp.Session != "" {
+				return "false+token", true
+			}
+			return "false", true
+		}
+		cs, _, tu, ta := w.sessions().Check(resp.Session)
+		return fmt.Sprintf("true/token(%v,%s,%v)/body(%s,%v)", cs == 200, tu, ta, resp.Username, resp.IsAdmin), true
 	case "api-update-oldpw":
 		b, _ := json.Marshal(map[string]string{"username": o.User, "oldpassword": o.Pw})
 		rec := httptest.NewRecorder()
